@@ -62,8 +62,16 @@ func VerifC05ConnWrite() {
 	st := &verifHealthyWriter{}
 	c := verifNewConn(NewWriter(st, S, "k"), 2, false)
 	var want []byte
+	// the lines are carved back to back from one buffer of the caller (no separator byte between them,
+	// spare capacity behind each): the connection must not write into memory it was not handed
+	l0, l1 := 1+verifChoice("len", 4), 1+verifChoice("len", 4)
+	arena := verifBytes("arena", l0+l1)
+	orig := string(arena)
 	for i := 0; i < 2; i++ {
-		line := verifBytes("line", 1+verifChoice("len", 4))
+		line := arena[:l0]
+		if i == 1 {
+			line = arena[l0:]
+		}
 		n, err := c.Write(line)
 		verifAssert(err == nil, "healthy-write-no-error")
 		verifAssert(n == len(line)+1, "written-count-is-line-plus-newline")
@@ -72,6 +80,7 @@ func VerifC05ConnWrite() {
 	}
 	got := append(append([]byte{}, st.log...), c.buffered.buf[:c.buffered.n]...)
 	verifAssert(verifCatEq(got, nil, want, nil), "stream-is-lines-each-with-one-newline")
+	verifAssert(string(arena) == orig, "handed-off-lines-not-modified")
 	verifCover("end")
 }
 
